@@ -12,7 +12,7 @@
   for programs in which an action is skipped after consuming bits of a discarded group
   (known finding D2), which is why it is a hypothesis here and not a lemma about all `Prog`.
 -/
-import RapidProofs.Shrink
+import RapidProofs.PruneProp
 
 namespace Rapid.C01
 
@@ -44,6 +44,27 @@ theorem blamed_case_fails (p : Prog) (checks : Nat) (seed : UInt64) (early : Nat
 /-- the shrinker never sees its second run disagree with the first -/
 theorem no_mid_shrink_mismatch (p : Prog) (s : Shr) (c d : List UInt64) (e : Option Err) :
     accept p s c ≠ .mismatch d e := accept_no_mismatch p s c d e
+
+/-- **L-PS discharged**: for property functions that draw from any nesting of the built-in
+    generators (no Custom) and use the `*T` API, the hypothesis `PruneStable` holds whenever
+    failing test cases end with the body producing a value or a failure (`BodyGood`; it
+    excludes "Errorf, then Skip" and running out of model fuel) -/
+theorem pruneStable_of_property (e : Env) (hrt : RTPos e) (p : Prog) (hp : PropProg e p) (hbg : BodyGood p) :
+    PruneStable p := pruneStable_of_ps (propProg_ps e hrt hp) hbg
+
+/-- end to end: such a property is never reported as flaky and the final replay fails as reported,
+    for every seed, checks, fail files, clock and candidate sequence of the shrinker -/
+theorem reported_failure_is_real (e : Env) (hrt : RTPos e) (p : Prog) (hp : PropProg e p) (hbg : BodyGood p)
+    (checks : Nat) (seed : UInt64) (files : List FF) (early : Nat → Bool) (cands : List (List UInt64)) :
+    match verdict checks (doCheck p checks seed files early cands) with
+    | .flaky _ _ => False
+    | .failed _ er _ buf => (checkOnce p (.buf buf) TS.fresh).err = some er ∧ er.isInvalid = false
+    | _ => True :=
+  verdict_of_doCheck p (pruneStable_of_property e hrt p hp hbg) checks seed files early cands
+
+/-- properties that fail only fatally (Fatal*/FailNow/panic) satisfy `BodyGood` -/
+theorem bodyGood_of_fatal_only (p : Prog) (hp : TsPure p) (hfuel : ∀ src, (p.run src TS.fresh).res ≠ .error .fuel) :
+    BodyGood p := bodyGood_of_pure hp hfuel
 
 /-- non-vacuity: a concrete property with a failing run (site 7) satisfies the hypotheses of
     `blamed_case_fails` at the level of one test case -/
